@@ -70,6 +70,11 @@ func LoadEngine(repo, contractsDir string, patterns []string) (*Engine, error) {
 	e.ss = LoadSpecs(repo, modPath, contractsDir)
 	e.inlinePrefixes = []string{"mosn.io/"}
 	for _, c := range e.ss.Contracts {
+		if c.Flags["view"] != "" {
+			// additional verified clauses for a function that already has a (typically trusted) contract:
+			// verified for its own properties, never used at call sites
+			continue
+		}
 		e.contractsByKey[c.Key()] = c
 	}
 	// purefn patterns are written as "purefn:<pattern>" inside Pure
@@ -623,6 +628,15 @@ func (vc *VC) run() {
 	alloc0 := vc.q.Declare("alloc$0", SInt)
 	vc.q.Assert(Le(IntLit(1), alloc0))
 	st := &State{reach: True, mem: map[string]Term{}, alloc: alloc0}
+	for _, cl := range con.AllClauses() {
+		if strings.Contains(cl.Text, "locked(") || strings.Contains(cl.Text, "lockcount(") {
+			vc.trackLocks = true
+		}
+	}
+	if vc.trackLocks {
+		vc.get(st, "W_lockheld", lockHeldSort)
+		vc.get(st, "W_lockcnt", lockCntSort)
+	}
 	vc.registerCasNames(fn)
 	for n := range vc.casNames {
 		vc.casPre[n] = true
@@ -803,7 +817,8 @@ func (vc *VC) frameObligations(fr *Frame, envPre *Env, exit *State) {
 	}
 	sort.Strings(names)
 	for _, name := range names {
-		if strings.HasPrefix(name, "L_") {
+		if strings.HasPrefix(name, "L_") || strings.HasPrefix(name, "W_") {
+			// iterator state / this function's own history records (won CAS, locks held): not heap
 			continue
 		}
 		cur := exit.mem[name]
